@@ -11,13 +11,15 @@ CInit == /\ Waiters = {"w1", "w2", "w3", "w4", "w5", "w6", "w7", "w8"}
          /\ Codes = {11, 35, 40}
          /\ TableSize = 40 /\ WaitCode = 35 /\ Vias = {TRUE, FALSE}
          /\ MaxReq = 1000000 /\ MaxBatch = 2 /\ Hist = FALSE /\ SplitReg = TRUE
-         /\ Deliveries = {"single", "pipelined", "fragmented"}
+         /\ Deliveries = {"single", "pipelined", "fragmented"} /\ Reps = {1, 255, 256}
+         /\ CountHist = TRUE /\ GenBug = FALSE /\ GenMod = 256
 
 CInitAtomic == /\ Waiters = {"w1", "w2", "w3", "w4", "w5", "w6", "w7", "w8"}
                /\ Codes = {11, 35, 40}
                /\ TableSize = 40 /\ WaitCode = 35 /\ Vias = {TRUE, FALSE}
                /\ MaxReq = 1000000 /\ MaxBatch = 2 /\ Hist = FALSE /\ SplitReg = FALSE
-               /\ Deliveries = {"single", "pipelined", "fragmented"}
+               /\ Deliveries = {"single", "pipelined", "fragmented"} /\ Reps = {1, 255, 256}
+         /\ CountHist = TRUE /\ GenBug = FALSE /\ GenMod = 256
 
 \* the inductive invariant, typing part in assignment form
 IndInv == /\ via \in BOOLEAN
@@ -29,8 +31,10 @@ IndInv == /\ via \in BOOLEAN
           /\ reqlog = <<>>
           /\ parkedAt = [w \in Waiters |-> 0]
           /\ nreq \in 0 .. MaxReq
+          /\ hcount \in [InRange -> Nat]
+          /\ seen = [w \in Waiters |-> 0]
           /\ last \in [op : {"init", "call", "park", "reg", "race", "request", "return"}, ws : SUBSET Waiters,
-                       cs : SUBSET Codes, dl : {"none", "single", "pipelined", "fragmented"}, rel : SUBSET Waiters, n : 0 .. 8, pan : {FALSE}]
+                       cs : SUBSET Codes, dl : {"none", "single", "pipelined", "fragmented"}, rep : {0, 1, 255, 256}, rel : SUBSET Waiters, n : 0 .. 8, pan : {FALSE}]
           /\ Partition
 
 StepOK == C20_Step
